@@ -245,6 +245,39 @@ Lemma def_sig_example :
 Proof. split; reflexivity. Qed.
 
 (* ------------------------------------------------------------------------ *)
+(* the owning class of self *)
+Lemma gen_self_walk : self_walk_on_previous = true.
+Proof. reflexivity. Qed.
+
+Lemma walk_chain : forall names module found,
+  names <> [] ->
+  exists c, walk_from true module (chain names) names found = Some c /\ cname c = last names 0%N /\ cnested c = [].
+Proof.
+  induction names as [|n r IH]; intros module found H; [contradiction|].
+  cbn [chain walk_from find_cls cname]. rewrite N.eqb_refl. cbn [cnested].
+  destruct r as [|n2 r2].
+  - cbn. eexists. repeat split.
+  - destruct (IH module (Some (Cls n (chain (n2 :: r2)))) ltac:(discriminate)) as (c & Hc & Hn & He).
+    exists c. split; [exact Hc|]. split; [|exact He]. cbn [last]. exact Hn.
+Qed.
+
+(* any nesting depth: the runtime route finds the innermost class of Outer.Inner....method *)
+Theorem owner_resolved_at_any_depth : forall names, names <> [] ->
+  exists c, owner_from_qualname (chain names) names = Some c /\ cname c = last names 0%N.
+Proof.
+  intros names H. unfold owner_from_qualname. rewrite gen_self_walk.
+  destruct (walk_chain names (chain names) None H) as (c & Hc & Hn & _). eauto.
+Qed.
+
+(* looking every component up on the module (the seeded variant) loses every class nested in a class *)
+Theorem owner_on_module_fails_when_nested : forall n1 n2 rest,
+  N.eqb n1 n2 = false ->
+  owner_from_qualname_on_module (chain (n1 :: n2 :: rest)) (n1 :: n2 :: rest) = None.
+Proof.
+  intros n1 n2 rest H. unfold owner_from_qualname_on_module. cbn. rewrite N.eqb_refl. cbn. now rewrite H.
+Qed.
+
+(* ------------------------------------------------------------------------ *)
 (* calls: the binder of C05 and the call checker of C06 applied to both signatures *)
 Require Import PV.Annot.Calls.
 Require PV.Binder.Kind PV.Binder.Sig PV.Binder.Bind PV.TypeVar.Base PV.Call.Model.
